@@ -1174,6 +1174,10 @@ func (t *sendTr) senderCall(c *ast.CallExpr) (string, error) {
 				}
 				break
 			}
+			if vals, ok := t.marshalRootStruct(c.Args[i], strings.Split(strings.TrimPrefix(k, "struct:"), ","), strings.Split(r.fieldTys[i], ",")); ok {
+				out = append(out, vals...) // senders_marshal.go: a package-level Addr of package packet = its initialiser
+				break
+			}
 			// a package-level / session struct value: one extra argument per field
 			for j, f := range strings.Split(strings.TrimPrefix(k, "struct:"), ",") {
 				n, ok := t.sessionPath(c.Args[i], f)
